@@ -230,6 +230,22 @@ func c15RunCell(c c15Cell, s *gen.Stream, validQuote bool) (key, oracle, detail 
 	return "", "", ""
 }
 
+var c15File string
+
+// c15PlainFile returns the path of an ordinary (empty) file: it opens, and every ioctl on it fails.
+func c15PlainFile() string {
+	if c15File == "" {
+		_ = os.MkdirAll(gen.VerifDir()+"/.build", 0o755)
+		f, err := os.CreateTemp(gen.VerifDir()+"/.build", "c15-notadevice-")
+		if err != nil {
+			return "/dev/null"
+		}
+		c15File = f.Name()
+		f.Close()
+	}
+	return c15File
+}
+
 type scriptProvider struct {
 	supported error
 	bytes     []byte
@@ -244,7 +260,7 @@ func (p *scriptProvider) GetRawQuote(rd [64]byte) ([]uint8, error) {
 }
 
 func c15Cells() []c15Cell {
-	results := []uintptr{0, 1, 7, 8, 9, 0xdead}
+	results := []uintptr{0, 1, 7, 8, 9, 10, 0xdead}
 	statuses := []uint64{0, labi.GetQuoteInFlight, labi.GetQuoteError, labi.GetQuoteServiceUnavailable, 5, 1 << 63 >> 1}
 	outLens := []uint32{0, 1, 0xAAAA, 5000, labi.ReqBufSize - 1, labi.ReqBufSize, labi.ReqBufSize + 1, 1 << 31, 1<<32 - 1}
 	var cells []c15Cell
@@ -286,6 +302,11 @@ func c15Cells() []c15Cell {
 }
 
 func TestC15(t *testing.T) {
+	defer func() {
+		if c15File != "" {
+			_ = os.Remove(c15File)
+		}
+	}()
 	replayDir(t, "C15")
 	_ = flag.Set("tdx_guest_device_path", "/nonexistent/verif-tdx-guest")
 	cells := c15Cells()
@@ -317,8 +338,8 @@ func TestC15(t *testing.T) {
 		s := gen.NewStream(rapid.Uint64().Draw(t, "content"), "c15r")
 		c := c15Cell{
 			rErr: rapid.IntRange(0, 9).Draw(t, "rErr") == 0, qErr: rapid.IntRange(0, 9).Draw(t, "qErr") == 0,
-			rRes:      uintptr(rapid.SampledFrom([]uint64{0, 0, 0, 1, 9, 1 << 40}).Draw(t, "rRes")),
-			qRes:      uintptr(rapid.SampledFrom([]uint64{0, 0, 0, 1, 8, 1 << 40}).Draw(t, "qRes")),
+			rRes:      uintptr(rapid.OneOf(rapid.SampledFrom([]uint64{0, 0, 0, 1, 9, 1 << 40}), rapid.Uint64Range(0, 70), rapid.SampledFrom([]uint64{255, 256, 65535, 1<<31 - 1, 1 << 31, 1<<32 - 1, 1<<63 - 1, 1<<64 - 1})).Draw(t, "rRes")),
+			qRes:      uintptr(rapid.OneOf(rapid.SampledFrom([]uint64{0, 0, 0, 1, 8, 1 << 40}), rapid.Uint64Range(0, 70), rapid.SampledFrom([]uint64{255, 256, 65535, 1<<31 - 1, 1 << 31, 1<<32 - 1, 1<<63 - 1, 1<<64 - 1})).Draw(t, "qRes")),
 			status:    rapid.OneOf(rapid.Just(uint64(0)), rapid.Uint64(), rapid.SampledFrom([]uint64{labi.GetQuoteInFlight, labi.GetQuoteError, labi.GetQuoteServiceUnavailable})).Draw(t, "status"),
 			outLen:    rapid.OneOf(rapid.Uint32Range(0, labi.ReqBufSize+2), rapid.Uint32()).Draw(t, "outLen"),
 			untouched: rapid.IntRange(0, 7).Draw(t, "untouched") == 0,
@@ -350,6 +371,10 @@ func TestC15(t *testing.T) {
 		}
 		var rd [64]byte
 		s.Fill(rd[:])
+		// where the fall-back looks for the device: nothing there, or something that opens but is not a TDX device
+		devPath := rapid.SampledFrom([]string{"/nonexistent/verif-tdx-guest", "/nonexistent/verif-tdx-guest", "/dev/null", c15PlainFile()}).Draw(t, "devicePath")
+		_ = flag.Set("tdx_guest_device_path", devPath)
+		defer flag.Set("tdx_guest_device_path", "/nonexistent/verif-tdx-guest")
 		gen.Eval()
 		var got []byte
 		v := gen.Call(func() error {
@@ -357,7 +382,7 @@ func TestC15(t *testing.T) {
 			got, err = client.GetRawQuote(p, rd)
 			return err
 		})
-		rp := map[string]any{"kind": "provider"}
+		rp := map[string]any{"kind": "provider", "device_path": devPath}
 		if v.Panicked() {
 			gen.Fail(t, gen.Violation{Key: "provider-panic", Oracle: "never a crash", Detail: v.Panic, Replay: rp})
 			return
@@ -372,7 +397,11 @@ func TestC15(t *testing.T) {
 				gen.Fail(t, gen.Violation{Key: "unsupported-provider-used", Oracle: "an unsupported provider is not asked for a quote", Detail: fmt.Sprint(p.calls), Replay: rp})
 				return
 			}
-			if v.Accepted() || !strings.Contains(v.Err.Error(), "neither TDX device, nor ConfigFs") {
+			if v.Accepted() || len(got) != 0 {
+				gen.Fail(t, gen.Violation{Key: "fallback-device-failure-not-an-error", Oracle: "any device outcome other than success yields an error — also on the fall-back path taken when the provider reports no support", Detail: fmt.Sprintf("device path %s: returned %d bytes, error %v", devPath, len(got), v.Err), Replay: rp})
+				return
+			}
+			if devPath == "/nonexistent/verif-tdx-guest" && !strings.Contains(v.Err.Error(), "neither TDX device, nor ConfigFs") {
 				gen.Fail(t, gen.Violation{Key: "no-device-fallback", Oracle: "the device path is tried when the provider reports no support", Detail: v.String(), Replay: rp})
 				return
 			}
